@@ -352,6 +352,29 @@ CHECKS["C19"] = dict(
          "appear as probes only.",
 )
 
+CHECKS["C04"] = dict(
+    text=("Machine-checked theorems (Coq) over a model of Encoder.encode/decode (tables and character-reference "
+          "chains regenerated from /repo's source and AST on every run, fail-closed), Text.escape/unescape/trim/"
+          "__add__ with the escaped flag, Attribute and Element text rendering, Element.plain/str character by "
+          "character, PrefixNormalizer.refitValue and Handler.characters/endElement, against XML 1.0 decoders and a "
+          "Coq XML tokenizer: for EVERY legal string what is written is well-formed (unguarded) and the receiver reads "
+          "the string with pre-existing entity references decoded once (text_roundtrip_exact), hence exactly the "
+          "string when it contains none (_partial; witnesses for the two known departures); replies written as ANY "
+          "mix of literal text, named/decimal/hex references and CDATA decode to the intended string, chunking is "
+          "irrelevant, trimming only for non-leaf elements; both serialisers re-read to the same tree, proved end to "
+          "end in Coq (characters -> grammar -> Handler). Bounded exhaustive theorems (forallb by vm_compute, bound in "
+          "the statement) classify exactly which strings of length <= 5 over a 13-symbol alphabet survive. ~27k "
+          "cases per quick run (all strings of length <= 3 over 21 symbols as text/attribute through both "
+          "serialisers, random XML-Char strings incl. astral, 700 calls x 5 positions x 4 client configurations, 700 "
+          "replies x 5 positions in 4 encodings from an independent writer, random trees) are compared inside Coq, "
+          "with expat as the independent reader."),
+    design="DESIGN.md §5 C04",
+    technique="Coq proof (string induction; bounded exhaustive sweeps lifted by forallb_forall) + in-Coq differential "
+              "correspondence with expat as oracle",
+    note="Marshaller/appender paths, envelope construction and nsdeclarations are covered by correspondence only; "
+         "Raw text, lang, comments, PIs and DTDs are not modelled; re.sub/str.replace semantics are trusted.",
+)
+
 PENDING = {}
 
 
